@@ -53,7 +53,9 @@ def value_to_literal(value: Any, type_: GraphQLInputType) -> ConstValueNode | No
     if is_non_null_type(type_):
         if value is None or value is Undefined:
             return None  # Invalid: intentionally return no value.
-        return value_to_literal(value, type_.of_type)
+        literal = value_to_literal(value, type_.of_type)
+        # Invalid: a non-null type has no null literal (e.g. a non-finite float).
+        return None if isinstance(literal, NullValueNode) else literal
 
     # Like JSON, a null literal is produced for both null and undefined.
     if value is None or value is Undefined:
